@@ -197,6 +197,9 @@ func c09(c *Ctx) {
 	// a failed sensor read leaves the last good average in place (shared with C08 R-skip)
 	c.ruleAvgSkip("R-lastgood")
 	c.ruleErrNil("R-errnil", reach)
+	// a sensor whose first read fails at start-up must still be registered: the curves dereference the registry
+	// lookup without an existence test in the first control cycle (shared with C11 R-registry|every-entry)
+	c.ruleEveryEntryRegistered("R-registered")
 
 	// ---- R-propagate ------------------------------------------------------------
 	for _, fn := range c.ImplMethods(PkgCurves, "SpeedCurve", "Evaluate") {
